@@ -551,6 +551,50 @@ def run_insitu(ctx, spec):
             lst.close()
         report(ctx, mon, case)
         ctx.case(('insitu', case['file']), nontrivial=(mon.nf + mon.ni - n0) > 0, sample=True)
+    # the same readers reached through history() (which walks the file by another route than stepping does), on copies of
+    # two small listings in which every number is re-printed with a three-digit exponent and no exponent letter
+    from vf.props import c05 as C05
+    from vf.oracle import listing_ref as LR
+    import random
+    small = sorted((os.path.getsize(f), f) for f in listings if os.path.getsize(f) < 3e6)
+    picks = [f for _, f in small if '/AUTOUGH2/' in f][:1] + [f for _, f in small if '/TOUGH2/' in f][:1]
+    for f in picks:
+        case = {'file': os.path.relpath(f, REPO), 'kind': 'listing-variant-history', 'variant': 'exp3-no-letter'}
+        try:
+            ref = LR.parse_listing(f)
+            lines = C05.read_lines(f)
+            n = C05.make_variant(ctx, random.Random(16), lines, ref, 'exp3-no-letter', 1.0)
+            fn = C05.write_variant(ctx, f, lines, 'c16hist')
+        except Exception as e:
+            import traceback
+            raise HarnessError('building the listing variant failed: %s\n%s' % (e, traceback.format_exc()))
+        if n == 0:
+            continue
+        with ctx.guard(case, where='insitu-history-variant'):
+            lst = R.t2listing.t2listing(fn)
+            N = lst.num_fulltimes
+            for tname in lst._tablenames:
+                tab = lst._table[tname]
+                rows = sorted(set([0, tab.num_rows // 2, tab.num_rows - 1])) if tab.num_rows else []
+                cols = list(tab.column_name)[:4]
+                sel = [(tname[0] if not tname.startswith('element') or tname == 'element' else tname, tab.row_name[r], c) for r in rows for c in cols]
+                if not sel or len(set(tab.row_name)) != len(tab.row_name) or tname not in ('element', 'connection', 'generation'):
+                    continue
+                hist = lst.history(sel, short=False)
+                ctx.count('histories_read_from_listing_variants', len(sel))
+                # against stepping
+                for (spec, row, col), (times, vals) in zip(sel, hist):
+                    step = []
+                    for i in range(N):
+                        lst.index = i
+                        step.append(float(lst._table[tname][row][col]))
+                    if len(vals) != N or any(not ((float(a) == b) or (a != a and b != b)) for a, b in zip(vals, step)):
+                        ctx.violation('wrong-value:history-on-listing-variant', '%s table %s row %r column %r: history %r..., stepping %r...' % (
+                            case['file'], tname, row, col, list(vals[:3]), step[:3]), case)
+                        break
+            lst.close()
+        os.remove(fn)
+        report(ctx, mon, case)
     if mon.stackf or mon.stacki:
         ctx.violation('raises:insitu:unreturned-call', 'calls that never returned: %r' % (mon.stackf + mon.stacki), {'files': 'corpus'})
     ctx.count('insitu_calls_checked', mon.nf + mon.ni)
